@@ -1,13 +1,51 @@
 package sim
 
 import (
+	"context"
 	"fmt"
 
+	kruisev1beta1 "github.com/openkruise/kruise-api/apps/v1beta1"
+	apps "k8s.io/api/apps/v1"
+	metav1 "k8s.io/apimachinery/pkg/apis/meta/v1"
+	utilpointer "k8s.io/utils/pointer"
 	"sigs.k8s.io/controller-runtime/pkg/client"
 )
 
 func (s *Scenario) installOtherWorkload(w *World) error {
+	switch s.Kind {
+	case "statefulset":
+		sts := &apps.StatefulSet{ObjectMeta: metav1.ObjectMeta{Name: s.Name, Namespace: s.NS, Labels: map[string]string{"app": s.Name}},
+			Spec: apps.StatefulSetSpec{Replicas: utilpointer.Int32(s.Replicas), ServiceName: s.SvcName(),
+				Selector: &metav1.LabelSelector{MatchLabels: map[string]string{"app": s.Name}}, Template: podTemplate(s.Name, "v1"),
+				PodManagementPolicy: apps.OrderedReadyPodManagement,
+				UpdateStrategy:      apps.StatefulSetUpdateStrategy{Type: apps.RollingUpdateStatefulSetStrategyType}}}
+		return w.Store.As("user").Create(context.TODO(), sts)
+	case "advstatefulset":
+		sts := &kruisev1beta1.StatefulSet{ObjectMeta: metav1.ObjectMeta{Name: s.Name, Namespace: s.NS, Labels: map[string]string{"app": s.Name}},
+			Spec: kruisev1beta1.StatefulSetSpec{Replicas: utilpointer.Int32(s.Replicas), ServiceName: s.SvcName(),
+				Selector: &metav1.LabelSelector{MatchLabels: map[string]string{"app": s.Name}}, Template: podTemplate(s.Name, "v1"),
+				PodManagementPolicy: apps.OrderedReadyPodManagement,
+				UpdateStrategy:      kruisev1beta1.StatefulSetUpdateStrategy{Type: apps.RollingUpdateStatefulSetStrategyType}}}
+		return w.Store.As("user").Create(context.TODO(), sts)
+	}
 	return fmt.Errorf("workload kind %q not modelled yet", s.Kind)
 }
-func (s *Scenario) otherWorkloadObject() client.Object           { return nil }
-func (s *Scenario) setOtherTemplate(obj client.Object, v string) {}
+
+func (s *Scenario) otherWorkloadObject() client.Object {
+	if s.Kind == "statefulset" {
+		return &apps.StatefulSet{}
+	}
+	if s.Kind == "advstatefulset" {
+		return &kruisev1beta1.StatefulSet{}
+	}
+	return nil
+}
+
+func (s *Scenario) setOtherTemplate(obj client.Object, v string) {
+	if o, ok := obj.(*apps.StatefulSet); ok {
+		o.Spec.Template.Spec.Containers[0].Image = "img:" + v
+	}
+	if o, ok := obj.(*kruisev1beta1.StatefulSet); ok {
+		o.Spec.Template.Spec.Containers[0].Image = "img:" + v
+	}
+}
